@@ -2,9 +2,46 @@ package sym
 
 import (
 	"reflect"
+	"strconv"
 	"strings"
 	"testing"
 )
+
+// The numeric models against strconv on every digit-led text of length <= 5
+// over the characters that matter.
+func TestNumericModels(t *testing.T) {
+	alpha := []byte("0179.eE+-xXbBoOaf")
+	var gen func(prefix []byte, n int)
+	gen = func(prefix []byte, n int) {
+		if len(prefix) > 0 {
+			s := string(prefix)
+			_, err := strconv.ParseInt(s, 0, 64)
+			if g := ModelParseIntOK(s); g != (err == nil) {
+				t.Fatalf("ParseIntOK(%q) = %v, strconv err = %v", s, g, err)
+			}
+			// float model: only texts without hex prefix (the lexer never sends them)
+			if !strings.ContainsAny(s, "xXbBoOaf") {
+				_, ferr := strconv.ParseFloat(s, 64)
+				if ne, ok := ferr.(*strconv.NumError); ok && ne.Err == strconv.ErrRange {
+					ferr = nil // range errors are outside the model
+				}
+				if g := ModelParseFloatOK(s); g != (ferr == nil) {
+					t.Fatalf("ParseFloatOK(%q) = %v, strconv err = %v", s, g, ferr)
+				}
+			}
+		}
+		if n == 0 {
+			return
+		}
+		for _, c := range alpha {
+			if len(prefix) == 0 && !(c >= '0' && c <= '9') {
+				continue
+			}
+			gen(append(append([]byte{}, prefix...), c), n-1)
+		}
+	}
+	gen(nil, 5)
+}
 
 // Differential test of the models against the real functions: every string
 // of length <= 4 over an alphabet that contains all the bytes the models
